@@ -662,6 +662,14 @@ impl PersistenceState {
 
         let old_path = wal_guard.path().to_path_buf();
 
+        // Under the periodic policy appends are not fsynced one by one and the periodic
+        // flush (sync_wal) only reaches the ACTIVE segment: once this segment is rotated out
+        // nothing would ever sync its tail, and acknowledged writes older than any flush
+        // interval could still be lost on power failure. Make it durable before switching.
+        if !matches!(self.fsync_policy, FsyncPolicy::Never | FsyncPolicy::Always) {
+            wal_guard.sync()?;
+        }
+
         let new_wal_path = self
             .data_dir
             .join(format!("wal_{}.wal", HnswBackend::file_id()));
@@ -1480,6 +1488,17 @@ impl HnswBackend {
                 wal_segment = wal_name,
                 "wal replay complete"
             );
+
+            // The previous process may have stopped (cleanly or not) with part of this
+            // segment only in the page cache: under the periodic policy appends are not
+            // fsynced one by one and the periodic flush only ever reaches the segment that is
+            // active at the time. From here on new writes go to a new segment, so nothing
+            // would sync this one again; make what was just replayed durable now.
+            if !matches!(fsync_policy, FsyncPolicy::Never) {
+                std::fs::File::open(&wal_path)
+                    .and_then(|file| file.sync_all())
+                    .with_context(|| format!("failed to fsync replayed WAL segment {}", wal_name))?;
+            }
         }
 
         if let Some((after, upto)) = fallback_required_seqs {
